@@ -614,3 +614,33 @@ func runPipes(c *Case) *Obs {
 	o.Aux = map[string]any{"log": r.log}
 	return o
 }
+
+func init() { components["xs"] = runXS }
+
+// xslices counterparts of Chunk / Runs (C07: "the iterator, stream and xslices versions agree").
+// cfg: fn ("chunk"|"runs"), l, n (chunk size) or r (relation)
+func runXS(c *Case) *Obs {
+	o := &Obs{}
+	l := ints(c.Cfg["l"])
+	var res any
+	p, _ := protect(func() {
+		var out [][]int
+		if c.Cfg["fn"].(string) == "chunk" {
+			out = xslicesChunk(l, num(c.Cfg["n"]))
+		} else {
+			out = xslicesRuns(l, relOf(c.Cfg["r"]))
+		}
+		r := [][]int{}
+		for _, x := range out {
+			y := []int{}
+			y = append(y, x...)
+			r = append(r, y)
+		}
+		res = []any{"lists", r}
+	})
+	if p {
+		res = []any{"panic"}
+	}
+	o.Obs = []any{res}
+	return o
+}
